@@ -95,10 +95,11 @@ type snap struct {
 	byHash       map[uint64]bool
 	keys         []string
 	unflushedAny map[uint64]bool // heights with no raw hash key (only in the pending batch)
+	onDisk       map[uint64]bool // heights with both raw keys present
 }
 
 func (e *env) snapshot() snap {
-	s := snap{byHeight: map[uint64]bool{}, byHash: map[uint64]bool{}, unflushedAny: map[uint64]bool{}}
+	s := snap{byHeight: map[uint64]bool{}, byHash: map[uint64]bool{}, unflushedAny: map[uint64]bool{}, onDisk: map[uint64]bool{}}
 	head, tail, herr, terr := e.headTail()
 	if herr != nil || terr != nil {
 		s.empty = true
@@ -111,9 +112,11 @@ func (e *env) snapshot() snap {
 		s.byHeight[h] = err == nil && g != nil && g.Height() == h
 		g2, err := e.st.Get(bg, e.chain.At(h).Hash())
 		s.byHash[h] = err == nil && g2 != nil && g2.Height() == h
-		if hk, _ := e.rawKeysFor(h); !hk && e.P[h] {
+		hk, ik := e.rawKeysFor(h)
+		if !hk && e.P[h] {
 			s.unflushedAny[h] = true
 		}
+		s.onDisk[h] = hk && ik
 	}
 	s.keys = e.d.Keys()
 	return s
@@ -156,6 +159,17 @@ func rangeClass(from, to, T, H uint64) (class string, valid bool) {
 // absent checks that no header of [from,to) is retrievable and no raw key remains.
 func (e *env) absent(from, to uint64, sigPrefix string, unfl map[uint64]bool) {
 	bg := context.Background()
+	if e.coarse {
+		for h := from; h < to; h++ {
+			_, err1 := e.getByHeight(h)
+			_, err2 := e.st.Get(bg, e.chain.At(h).Hash())
+			hk, ik := e.rawKeysFor(h)
+			if err1 == nil || err2 == nil || hk || ik {
+				e.c.Violation(sigPrefix+"/header-left-behind", fmt.Sprintf("height %d of the deleted range [%d,%d) is still there: by height %v, by hash %v, hash key %v, height key %v", h, from, to, err1 == nil, err2 == nil, hk, ik), nil)
+			}
+		}
+		return
+	}
 	for h := from; h < to; h++ {
 		st := "flushed"
 		if unfl[h] {
@@ -197,7 +211,7 @@ func (e *env) untouched(before snap, from, to uint64, sigPrefix string) {
 }
 
 // resolves checks that Head and Tail (when present) are stored headers with Tail <= Head.
-func (e *env) resolves(sigPrefix string) {
+func (e *env) resolves(sigPrefix string, wasOnDisk map[uint64]bool) {
 	bg := context.Background()
 	head, tail, herr, terr := e.headTail()
 	if herr != nil && terr != nil {
@@ -211,15 +225,20 @@ func (e *env) resolves(sigPrefix string) {
 		e.c.Violation(sigPrefix+"/tail-above-head", fmt.Sprintf("Tail %d > Head %d", tail.Height(), head.Height()), nil)
 	}
 	for name, p := range map[string]*vh.Header{"head": head, "tail": tail} {
+		missing := ""
 		if g, err := e.getByHeight(p.Height()); err != nil || string(g.Hash()) != string(p.Hash()) {
-			e.c.Violation(sigPrefix+"/"+name+"-not-stored-by-height", fmt.Sprintf("%s %d does not resolve by height: %v", name, p.Height(), err), nil)
-		}
-		if _, err := e.st.Get(bg, p.Hash()); err != nil {
-			e.c.Violation(sigPrefix+"/"+name+"-not-stored-by-hash", fmt.Sprintf("%s %d does not resolve by hash: %v", name, p.Height(), err), nil)
-		}
-		if hk, ik := e.rawKeysFor(p.Height()); (hk != ik) && (hk || ik) {
+			missing = fmt.Sprintf("%s %d does not resolve by height: %v", name, p.Height(), err)
+		} else if _, err := e.st.Get(bg, p.Hash()); err != nil {
+			missing = fmt.Sprintf("%s %d does not resolve by hash: %v", name, p.Height(), err)
+		} else if hk, ik := e.rawKeysFor(p.Height()); (hk != ik) && (hk || ik) {
 			// a pointer to a half-deleted header (one key gone): dangling after restart
-			e.c.Violation(sigPrefix+"/"+name+"-half-deleted-in-datastore", fmt.Sprintf("%s %d: hash key %v, height key %v", name, p.Height(), hk, ik), nil)
+			missing = fmt.Sprintf("%s %d is half-deleted in the datastore: hash key %v, height key %v", name, p.Height(), hk, ik)
+		} else if !hk && !ik && wasOnDisk[p.Height()] {
+			// the pointer names a header whose datastore keys are both gone: it only lives in memory
+			missing = fmt.Sprintf("%s %d was on disk before the call, now neither key exists although it is still the %s", name, p.Height(), name)
+		}
+		if missing != "" {
+			e.c.Violation(sigPrefix+"/pointer-target-missing-from-store", missing, nil)
 		}
 	}
 }
@@ -227,6 +246,8 @@ func (e *env) resolves(sigPrefix string) {
 func storeMixes(r *mon.Run) []mix {
 	var out []mix
 	add := func(m mix) { out = append(out, m) }
+	add(mix{Cfg: Cfg{SC: 64, IC: 64, WB: 8, Flavour: "plain"}, T0: 1, Batches: []int{8, 3}, Par: 4})
+	add(mix{Cfg: Cfg{SC: 64, IC: 64, WB: 8, Flavour: "ctx"}, T0: 2, Batches: []int{8, 3}, Par: 4})
 	for _, fl := range []string{"plain", "ctx"} {
 		add(mix{Cfg: Cfg{SC: 8, IC: 8, WB: 1, Flavour: fl}, T0: 3, Batches: []int{6}})             // all flushed
 		add(mix{Cfg: Cfg{SC: 512, IC: 512, WB: 64, Flavour: fl}, T0: 3, Batches: []int{8}})        // nothing flushed
@@ -262,7 +283,7 @@ func TestC08(t *testing.T) {
 		if T > 2 {
 			lo = T - 2
 		}
-		exhaustive := mi < 8
+		exhaustive := mi < 10
 		for from := lo; from <= H+3; from++ {
 			for to := lo; to <= H+3; to++ {
 				if !exhaustive && rng.Intn(6) != 0 {
@@ -275,7 +296,7 @@ func TestC08(t *testing.T) {
 	// part-way failures: every fault position for prefix / suffix / whole deletions
 	nf := 0
 	for _, m := range mixes {
-		if nf >= r.N(220, 6000) {
+		if nf >= r.N(1600, 9000) {
 			break
 		}
 		T, H := uint64(m.T0), uint64(m.T0+m.n()-1)
@@ -283,7 +304,7 @@ func TestC08(t *testing.T) {
 		for _, rg := range ranges {
 			span := int(rg[1] - rg[0])
 			for k := 0; k < span; k++ {
-				for _, f := range []string{"heightkey", "hashkey", "deadline"} {
+				for _, f := range []string{"heightkey", "hashkey", "deadline", "handler"} {
 					mon.Emit(r, "partial", c08P{Mix: m, From: rg[0], To: rg[1], Fault: f, K: k}, "partial")
 					nf++
 				}
@@ -406,7 +427,7 @@ func (e *env) afterNil(before snap, from, to uint64, class, sig string) {
 			c.Violation(sig+"/pointers-wrong", fmt.Sprintf("after deleting [%d,%d) of %d..%d: Head=%v (%v) Tail=%v (%v)", from, to, T, H, head, herr, tail, terr), nil)
 		}
 	}
-	e.resolves(sig)
+	e.resolves(sig, before.onDisk)
 	if c.Violated() {
 		return
 	}
@@ -490,6 +511,14 @@ func c08Partial(c *mon.Case, p c08P) {
 				}
 				return false
 			})
+		case "handler": // a handler refusing one height (no datastore fault at all)
+			e.st.OnDelete(func(hctx context.Context, h uint64) error {
+				if h == target && fired == 0 {
+					fired++
+					return errors.New("c08: handler refuses")
+				}
+				return nil
+			})
 		case "deadline": // a handler that takes 1ms (virtual) per header; the caller's deadline cuts the deletion
 			e.st.OnDelete(func(hctx context.Context, h uint64) error {
 				time.Sleep(time.Millisecond)
@@ -505,14 +534,19 @@ func c08Partial(c *mon.Case, p c08P) {
 		c.Count("partial_delete_calls", 1)
 		c.Count("faults_fired", fired)
 		c.Class("%s flavour=%s wb=%d restart=%v fault=%s fired=%v err=%v", class, p.Mix.Cfg.Flavour, p.Mix.Cfg.WB, p.Mix.Restart, p.Fault, fired > 0, err != nil)
-		sig := "partial/" + class + "/fault=" + p.Fault
+		fclass := map[string]string{"write": "ds-write-fault", "heightkey": "ds-write-fault", "hashkey": "ds-write-fault", "deadline": "deadline", "handler": "handler"}[p.Fault]
+		path := "seq"
+		if p.Mix.Par > 0 && int(p.To-p.From) >= p.Mix.Par {
+			path = "par"
+		}
+		sig := "partial/" + fclass + "/" + path + "/" + class
 		if err == nil {
 			// the fault did not hit (or was absorbed): the nil oracle applies
 			e.afterNil(before, p.From, p.To, class, "nil-return/"+class+"/fault="+p.Fault)
 			return
 		}
 		e.untouched(before, p.From, p.To, sig)
-		e.resolves("partial/" + class)
+		e.resolves("partial/"+fclass+"/"+path, before.onDisk)
 		if _, _, herr, terr := e.headTail(); class == "whole" && errors.Is(herr, header.ErrEmptyStore) && errors.Is(terr, header.ErrEmptyStore) {
 			// every header is gone and only dropping a pointer failed: the deletion is complete in effect
 			for h := p.From; h < p.To; h++ {
@@ -543,8 +577,8 @@ func c08Partial(c *mon.Case, p c08P) {
 				c.Violation(sig+"/retry-fails", fmt.Sprintf("fault-free retry DeleteRange(%d,%d): %v (first error: %v)", tail.Height(), p.To, err2, err), nil)
 				return
 			}
-			b2 := before
-			e.afterNil(b2, p.From, p.To, class, sig+"/after-retry")
+			e.coarse = true
+			e.afterNil(before, p.From, p.To, class, "partial/"+fclass+"/"+path+"/after-retry")
 		}
 	})
 }
